@@ -84,6 +84,10 @@ fn main() {
         let t0 = std::time::Instant::now();
         let r = catch_unwind(AssertUnwindSafe(|| match mode {
             "gen" => compile(&text, derives, ctx),
+            "tokens" => match text.parse::<proc_macro2::TokenStream>() {
+                Ok(ts) => Outcome::Ok(ts.to_string()),
+                Err(e) => Outcome::GenErr(format!("{}", e)),
+            },
             "ast" => match Grammar::from_str(&text) {
                 Ok(g) => Outcome::Ok(format!("{:?}", g)),
                 Err(e) => Outcome::ParseErr(e.position, format!("{:?}", e.specifics)),
